@@ -26,6 +26,7 @@ fn main() {
         (Some("record"), Some("ser")) => ser_rec::record(&args),
         (Some("record"), Some("ffi")) => ffi_rec::record(&args),
         (Some("record"), Some("cli")) => cli_rec::record(&args),
+        (Some("record"), Some("hashx")) => ser_rec::record_hashx(&args),
         (Some("record"), Some("table")) => tables::record_table(&args),
         (Some("replay"), Some("bddvec")) => vec_replay::replay_bddvec(&args),
         (Some("replay"), Some("itevec")) => vec_replay::replay_itevec(&args),
